@@ -14,6 +14,7 @@ import IocProofs.Lemmas.AppLemmas
 import IocProofs.Lemmas.M2StepInv
 import IocProofs.Lemmas.M2Examples
 import IocProofs.Lemmas.SemApp
+import IocProofs.Lemmas.ConcStart
 namespace Ioc.C13
 open Ioc Ioc.M2 Ioc.App
 
@@ -157,5 +158,55 @@ theorem C13_code_is_model (rs : List Runner) (sorted : List Nat) (hv : ∀ i ∈
 example : Go.run (Sem.crPrims [⟨⟨7, 0⟩, .plain, 0, true⟩, ⟨⟨8, 0⟩, .plain, 0, false⟩, ⟨⟨9, 0⟩, .prio, 1, false⟩] [2, 0, 1])
     Progs.app_callRunners [] {} = some (Sem.errA, { invoked := [2, 0], cleared := false }) :=
   (Sem.app_callRunners_sem _ _).trans (by rfl)
+
+/-! ### concurrent starts of different Apps in one process (Ioc.Conc section 4: the option loop of App.Run,
+    `for _, op := range append(ops, globalOptions...) { op(s) }`, over Go slices with capacities)
+
+    "Exactly once per start" needs every App to register ITS runners: the theorems above then give one invocation per
+    registered runner per start. Which options an App applies while other Apps start at the same time: -/
+
+open Ioc.Conc in
+/-- For every number of Apps, every content and CAPACITY of globalOptions (every history of app.Settings calls), every
+    option list per App and every interleaving of the Apps' `append` and loop steps: an App that has left its option loop
+    applied exactly its own options, in order, followed by the global ones — no option of another App, none twice. -/
+theorem C13_concurrent_starts_isolated (c : StartCfg) (h0 : Heap) (next0 : Nat) (wf : StartWF c next0) (s : StartSt)
+    (hr : StartSteps c (startInit h0 next0) s) (i : Nat) (hi : i < c.napps) (hd : startDone s i) :
+    s.applied i = readSlice h0 (c.ops i) ++ readSlice h0 c.g :=
+  starts_isolated c h0 next0 wf s hr i hi hd
+
+open Ioc.Conc in
+/-- … so, when App i's caller passes the SetComponents option with App i's runners (standard layout: any number of global
+    options of any capacity, none of them a SetComponents; nops ≥ 1 options per App), App i registers the runners of App j
+    iff j = i — under every interleaving of the concurrent starts. -/
+theorem C13_concurrent_starts_own_runners (glen gcap nops napps : Nat) (hn : 1 ≤ nops) (s : StartSt)
+    (hr : StartSteps (stdCfg false glen gcap nops napps) (startInit stdHeap (napps + 1)) s)
+    (i : Nat) (hi : i < napps) (hd : startDone s i) (j : Nat) :
+    SOpt.comps j ∈ s.applied i ↔ j = i := by
+  rw [C13_concurrent_starts_isolated _ stdHeap (napps + 1) (stdCfg_wf glen gcap nops napps) s hr i hi hd]
+  exact std_comps_mem glen gcap nops napps hn i j
+
+open Ioc.Conc in
+/-- What the argument order of `append` buys: with `append(globalOptions, ops...)` and ONE spare slot behind three global
+    options (three app.Settings calls of one option each), the schedule "both Apps evaluate append, then both run their
+    loops" makes App 0 apply the SetComponents option of App 1: the runners of App 1 are invoked by two starts, those of
+    App 0 by none. -/
+theorem C13_globals_first_counterexample :
+    let c := stdCfg true 3 4 1 2
+    let s := startRendezvous c (startInit stdHeap 3)
+    StartSteps c (startInit stdHeap 3) s ∧ s.pos 0 = 4 ∧ s.pos 1 = 4 ∧
+      s.applied 0 = [.other, .other, .other, .comps 1] ∧ s.applied 1 = [.other, .other, .other, .comps 1] ∧
+      runsOf c s 0 = 0 ∧ runsOf c s 1 = 2 ∧ foreignOf c s 1 = 1 :=
+  ⟨startRendezvous_sound _ _, by decide, by decide, by decide, by decide, by decide, by decide, by decide⟩
+
+open Ioc.Conc in
+/-- non-vacuity of the two theorems above: the same schedule under the code that exists (own options first), four Apps,
+    three global options with a spare slot: a run of the system in which every App has left its loop, having applied its
+    own SetComponents and the three global options; every runner is invoked by exactly one start, its own -/
+example :
+    let c := stdCfg false 3 4 1 4
+    let s := startRendezvous c (startInit stdHeap 5)
+    StartSteps c (startInit stdHeap 5) s ∧ startDone s 2 ∧ s.applied 2 = [.comps 2, .other, .other, .other] ∧
+      (List.range 4).map (runsOf c s) = [1, 1, 1, 1] ∧ (List.range 4).map (foreignOf c s) = [0, 0, 0, 0] :=
+  ⟨startRendezvous_sound _ _, ⟨⟨5 + 2, 4, 4⟩, by decide, by decide⟩, by decide, by decide, by decide⟩
 
 end Ioc.C13
